@@ -895,7 +895,9 @@ func (m *Model) stepQuery(st *MState, c *pgwire.FMsg, rest []pgwire.FMsg) []Bran
 func (m *Model) stepStartup(st *MState, c *pgwire.FMsg) []Branch {
 	switch c.K {
 	case "startup":
-		if !isPlain(c) || c.NoTerm || (c.Proto != 0 && c.Proto != pgwire.ProtoV3) || len(c.Tail) > 0 {
+		// (minor versions of protocol 3 are regular startup packets; other major
+		// versions are not judged)
+		if !isPlain(c) || c.NoTerm || (c.Proto != 0 && c.Proto>>16 != 3) || len(c.Tail) > 0 {
 			return one(Branch{Next: st, Loose: true})
 		}
 		n := st.clone()
